@@ -72,7 +72,7 @@ def obligations(tier):
                       bounds=f'provider SSL container={p_tls}, consumer SSL container={c_cont}, force_ssl_connect={c_force}; all 64 '
                              'combinations of {provider shared/own HTTP server, consumer shared/own, provider alternative hostname, '
                              'consumer alternative hostname, first TLS handshake ok / ssl.SSLError, shutdown by Unsubscribe / '
-                             'SubscriptionEnd}; finite configuration space enumerated by path forking; one exchange per configuration',
+                             'SubscriptionEnd} x (TLS enforced only) device location spelled with the xaddr\'s scheme / the other one; finite configuration space enumerated by path forking; one exchange per configuration',
                       claim='provider with TLS: get_xaddrs, base_urls and every own URL in every message it sends are https, every '
                             'connection it opens is an HTTPS connection with its client context, its server got its server context; '
                             'consumer with TLS enforced: the same for NotifyTo / EndTo and its connections, and no plaintext connection '
